@@ -8,6 +8,9 @@ PAYLOADS = [
     b'""',
     b'"unclosed',
     b'{"n": 1}',
+    # two long payloads of equal length that agree on their first 32 bytes and differ only at the end
+    b'{"key": "users/0000000000000042/profile", "v": "A"}',
+    b'{"key": "users/0000000000000042/profile", "v": "B"}',
 ]
 TIPS = [b'A', b'PING']
 # delays include pairs that differ in the last bits only (1.0 vs 1.0 + 5e-10, 0.1 + 0.2 vs 0.3) and a huge one:
